@@ -30,7 +30,7 @@ Proof. exact grow_old_upvalue_visible. Qed.
 Print Assumptions C10_grow_old_upvalue_refuted.
 
 (* BOUNDED size/growth independence (finite statement, bound stated): two runs of the same
-   program of at most BOUND = 6 operations over the 19-operation alphabet - equal once the
+   program of at most BOUND = 6 operations over the 23-operation alphabet - equal once the
    growth steps are erased - from different base addresses and capacities, with growth steps
    at different places and to different new bases, produce the same reads, provided both
    satisfy the discipline D and never exceed their capacity.  The unbounded statement is NOT
